@@ -768,6 +768,34 @@ impl Object {
 	}
 }
 
+/// Verification hook: snapshot of the key index internals.
+#[cfg(json_syntax_verif)]
+#[derive(Clone, Debug, PartialEq, Eq)]
+pub struct VerifIndexDump {
+	/// Number of occupied buckets (distinct keys according to the index).
+	pub len: usize,
+
+	/// Number of buckets allocated by the table.
+	pub capacity: usize,
+
+	/// For each occupied bucket: the representative position and the other
+	/// positions, as stored.
+	pub buckets: Vec<(usize, Vec<usize>)>,
+}
+
+#[cfg(json_syntax_verif)]
+impl Object {
+	/// Verification hook: read-only dump of the key index.
+	pub fn verif_index_dump(&self) -> VerifIndexDump {
+		let (len, capacity, buckets) = self.indexes.verif_dump();
+		VerifIndexDump {
+			len,
+			capacity,
+			buckets,
+		}
+	}
+}
+
 pub type Iter<'a> = core::slice::Iter<'a, Entry>;
 
 pub struct IterMut<'a>(std::slice::IterMut<'a, Entry>);
